@@ -133,10 +133,16 @@ Definition cmp_same {A} (eqb : A -> A -> bool) (s : lookup A) : cmpf :=
 
 (* Counters threaded through the algorithms: number of deadline probes made so
    far and number of element comparisons made so far. *)
-Record ctr : Type := { probes : nat; cmps : nat }.
-Definition ctr0 : ctr := {| probes := 0; cmps := 0 |}.
+Record ctr : Type := {
+  probes : nat;      (* deadline probes made so far *)
+  cmps : nat;        (* element comparisons new[j]==old[i] made so far *)
+  expired : bool;    (* some probe has already answered true *)
+  post_cmps : nat    (* comparisons made after the first true probe *)
+}.
+Definition ctr0 : ctr := {| probes := 0; cmps := 0; expired := false; post_cmps := 0 |}.
 Definition add_cmps (c : ctr) (k : nat) : ctr :=
-  {| probes := probes c; cmps := cmps c + k |}.
+  {| probes := probes c; cmps := cmps c + k; expired := expired c;
+     post_cmps := if expired c then post_cmps c + k else post_cmps c |}.
 
 (* A deadline: None = no deadline (deadline_exceeded returns false without
    consulting the clock); Some clk = the i-th probe (0-based) answers clk i. *)
@@ -145,7 +151,10 @@ Definition deadline := option (nat -> bool).
 Definition deadline_exceeded (dl : deadline) (c : ctr) : bool * ctr :=
   match dl with
   | None => (false, c)
-  | Some clk => (clk (probes c), {| probes := S (probes c); cmps := cmps c |})
+  | Some clk =>
+      let b := clk (probes c) in
+      (b, {| probes := S (probes c); cmps := cmps c;
+             expired := expired c || b; post_cmps := post_cmps c |})
   end.
 
 (* the clock used by the harness hook: expires at probe k *)
